@@ -178,6 +178,9 @@ func doPolygons(c *vkit.Collector, rng *vkit.Rng, k int) {
 	P := s2.PolygonFromLoops(loopsOf(sub))
 	O := s2.PolygonFromLoops(loopsOf(other))
 	doPolygonPair(c, rng, pl, P, O, fam.class, k%2 == 0)
+	if k%3 == 0 {
+		doDecodedPolygons(c, rng, pl, k)
+	}
 
 	// arbitrary (possibly crossing) loops through PolygonFromLoops: the nesting model must still agree
 	if k%4 == 0 {
@@ -538,4 +541,60 @@ func decodeLoop(b []byte) *s2.Loop {
 		return nil
 	}
 	return out
+}
+
+// doDecodedPolygons: shell (+ hole) polygons on a ring grid with 8..100 vertices per loop, snapped or
+// not, sent through Encode/Decode; the decoded polygon must be valid, carry sound cached rectangles
+// and obey the laws against its original and against other polygons.
+func doDecodedPolygons(c *vkit.Collector, rng *vkit.Rng, pl *pool, k int) {
+	K := []int{8, 40, 64, 100}[rng.Intn(4)]
+	nl := 1 + rng.Intn(3)
+	g := newGrid(rng, K, nl+1, []float64{5, 30, 70}[rng.Intn(3)], false)
+	var loops [][]s2.Point
+	for i := 0; i < nl; i++ {
+		v := g.ring(1, 0, constLevel(nl-i))
+		if k%2 == 0 {
+			v = snapPts(v)
+		}
+		if !validLoop(v) {
+			return
+		}
+		loops = append(loops, v)
+	}
+	orig := s2.PolygonFromLoops(loopsOf(loops))
+	dec, format := roundTrip(orig)
+	if dec == nil {
+		return
+	}
+	class := fmt.Sprintf("decoded polygon (%s, %d loops of %d vertices)", format, nl, K)
+	c.Class("decoded polygon: " + format)
+	replay := map[string]interface{}{"class": class}
+	lo := [][][3]float64{}
+	for _, l := range loops {
+		lo = append(lo, coords(l))
+	}
+	replay["loops"] = lo
+	if err := dec.Validate(); err != nil {
+		c.Violate("Polygon.decoded.validate", fmt.Sprintf("Decode(Encode(P)) is not valid: %v [%s]", err, class), replay)
+	}
+	if bd, sub := s2.VerifC07PolygonBounds(dec); !sub.Contains(bd) {
+		c.Violate("Polygon.subregionBound", fmt.Sprintf("decoded polygon: subregionBound %v does not contain bound %v [%s]", sub, bd, class), replay)
+	}
+	for i, l := range dec.Loops() {
+		if bd, sub := s2.VerifC07LoopBounds(l); !sub.Contains(bd) {
+			c.Violate("Loop.subregionBound", fmt.Sprintf("decoded polygon loop %d: subregionBound %v does not contain bound %v [%s]", i, sub, bd, class), replay)
+		}
+		if s2.VerifC07LoopDepth(l) != s2.VerifC07LoopDepth(orig.Loop(i)) || !l.Equal(orig.Loop(i)) {
+			c.Violate("Polygon.decoded.loops", fmt.Sprintf("decoded loop %d differs from the original in vertices or depth [%s]", i, class), replay)
+		}
+	}
+	// the decoded polygon and its original are the same region
+	if !dec.Contains(orig) || !orig.Contains(dec) || !dec.Intersects(orig) {
+		c.Violate("Polygon.decoded.same", fmt.Sprintf("P and Decode(Encode(P)) do not contain each other: dec.Contains(orig)=%v orig.Contains(dec)=%v [%s]", dec.Contains(orig), orig.Contains(dec), class), replay)
+	}
+	doPolygonPair(c, rng, pl, dec, orig, class, false)
+	// against a small triangle inside the outer ring band and a sub-polygon
+	inner := s2.PolygonFromLoops([]*s2.Loop{s2.LoopFromPoints(g.ring(K/3+1, 0, constLevel(0))[:3])})
+	doPolygonPair(c, rng, pl, dec, inner, class, false)
+	doPolygonPair(c, rng, pl, inner, dec, class, false)
 }
